@@ -89,6 +89,9 @@ def parse_kv(s: str) -> dict:
     return out
 
 
+SYN_KINDS = ("before", "after", "on_failure")
+
+
 class Env:
     def __init__(self, spec: dict, *, events: bool = False, trust_negative: bool = False,
                  max_wait_retries: int | None = None, tag: str = "eng"):
@@ -163,6 +166,11 @@ class Env:
         for st in self.spec["stages"]:
             for i, _ in enumerate(st.get("tasks", [])):
                 self.registry.register(f"vt_{st['ref']}_{i}", self._make_task(st["ref"], i, st))
+            for kind in SYN_KINDS:
+                for ch in st.get(kind, []):
+                    for i, _ in enumerate(ch.get("tasks", [])):
+                        self.registry.register(f"vt_{ch['ref']}_{i}", self._make_task(ch["ref"], i, ch))
+        self._register_builders()
         hc = HandlerConfig()
         if self.max_wait_retries is not None:
             import dataclasses
@@ -186,6 +194,65 @@ class Env:
         _Obs.enabled = True
         _Obs.count = 0
         _Obs.crash_at = None
+
+    def _register_builders(self):
+        """stage types with synthetic children: a StageDefinitionBuilder per parent (`vs_<ref>`: adds the before /
+        after / on-failure children of the spec) and per child (`vc_<ref>`: builds the child's scripted tasks)"""
+        from stabilize import StageExecution, TaskExecution
+        from stabilize.models.stage import SyntheticStageOwner
+        from stabilize.stages.builder import StageDefinitionBuilder, get_default_factory
+        fac = get_default_factory()
+        for st in self.spec["stages"]:
+            kids = {k: st.get(k, []) for k in SYN_KINDS}
+            if not any(kids.values()):
+                continue
+
+            def mk_parent(st=st, kids=kids):
+                class ParentBuilder(StageDefinitionBuilder):
+                    @property
+                    def type(self):
+                        return "vs_" + st["ref"]
+
+                    def _add(self, stage, graph, lst, owner):
+                        for ch in lst:
+                            c = StageExecution.create_synthetic(type="vc_" + ch["ref"], name=ch["ref"], parent=stage,
+                                                                owner=owner, context=dict(ch.get("ctx", {})))
+                            (graph.append if ch.get("chain") else graph.add)(c)
+
+                    def before_stages(self, stage, graph):
+                        self._add(stage, graph, kids["before"], SyntheticStageOwner.STAGE_BEFORE)
+
+                    def after_stages(self, stage, graph):
+                        self._add(stage, graph, kids["after"], SyntheticStageOwner.STAGE_AFTER)
+
+                    def on_failure_stages(self, stage, graph):
+                        self._add(stage, graph, kids["on_failure"], SyntheticStageOwner.STAGE_AFTER)
+                return ParentBuilder()
+            fac.register(mk_parent())
+            for lst in kids.values():
+                for ch in lst:
+                    def mk_child(ch=ch):
+                        class ChildBuilder(StageDefinitionBuilder):
+                            @property
+                            def type(self):
+                                return "vc_" + ch["ref"]
+
+                            def build_tasks(self, stage):
+                                n = len(ch.get("tasks", []))
+                                return [TaskExecution.create(name=f"t{i}", implementing_class=f"vt_{ch['ref']}_{i}",
+                                                             stage_start=(i == 0), stage_end=(i == n - 1)) for i in range(n)]
+                        return ChildBuilder()
+                    fac.register(mk_child())
+
+    def _refresh_ids(self):
+        """synthetic stages and their tasks are created at run time: learn their ids (name = child ref)"""
+        for r in self.hconn.execute("SELECT id, name FROM stage_executions WHERE execution_id = ? ORDER BY rowid", (self.wf_id,)):
+            if r["id"] not in self.id_ref:
+                self.id_ref[r["id"]] = r["name"]
+                self.stage_ids.setdefault(r["name"], r["id"])
+        for r in self.hconn.execute("SELECT t.id, t.stage_id, t.name FROM task_executions t ORDER BY t.id"):
+            if r["id"] not in self.task_ids and r["stage_id"] in self.id_ref and str(r["name"])[1:].isdigit():
+                self.task_ids[r["id"]] = (self.id_ref[r["stage_id"]], int(r["name"][1:]))
 
     def _patch_global_handler_config(self, rc, hc):
         # handlers built without an explicit config call get_handler_config(); make it return ours
@@ -297,7 +364,7 @@ class Env:
             if st.get("enabled") is not None:
                 ctx["stageEnabled"] = st["enabled"]
             s = StageExecution(
-                ref_id=st["ref"], type="verif", name=st["ref"], context=ctx,
+                ref_id=st["ref"], type=("vs_" + st["ref"] if any(st.get(k) for k in SYN_KINDS) else "verif"), name=st["ref"], context=ctx,
                 requisite_stage_ref_ids=set(st.get("reqs", [])),
                 join_type=JoinType[st.get("join", "AND")], join_threshold=st.get("threshold", 0),
                 split_type=SplitType[st.get("split", "AND")], split_conditions=dict(st.get("conds", {})),
@@ -483,6 +550,7 @@ class Env:
     def alpha(self) -> dict:
         """Canonical abstraction of the durable state, read through the harness connection."""
         c = self.hconn
+        self._refresh_ids()
         w = c.execute("SELECT status, is_canceled FROM pipeline_executions WHERE id = ?", (self.wf_id,)).fetchone()
         stages = []
         for r in c.execute("SELECT id, ref_id, status, start_time, end_time, version, context, outputs, parent_stage_id, "
@@ -493,6 +561,8 @@ class Env:
                 "SELECT status, version, start_time FROM task_executions WHERE stage_id = ? ORDER BY id", (r["id"],))]
             stages.append({
                 "ref": self.id_ref.get(r["id"], "syn:" + str(r["parent_stage_id"])), "status": r["status"],
+                "id": r["id"], "parent": r["parent_stage_id"], "owner": r["synthetic_stage_owner"],
+                "onfail": 1 if ctx.get("_on_failure_planned") else 0,
                 "started": r["start_time"] is not None, "ended": r["end_time"] is not None, "version": r["version"],
                 "fired": bool(ctx.get("_join_fired", False)), "completed_branches": list(ctx.get("_completed_branches", [])),
                 "activated": ctx.get("_activated_branches"), "bypass": bool(ctx.get("_jump_bypass", False)),
@@ -506,6 +576,7 @@ class Env:
         for r in self.rows():
             p = r["payload"]
             queue.append({"id": r["id"], "type": r["type"], "stage": self.id_ref.get(p.get("stage_id", ""), None),
+                          "stage_id": p.get("stage_id"), "phase": p.get("phase"),
                           "task": self.task_ids.get(p.get("task_id", ""), (None, None))[1],
                           "status": p.get("status"), "retry_count": p.get("retry_count", 0),
                           "attempts_carried": p.get("attempts", 0), "row_attempts": r["attempts"],
